@@ -379,6 +379,7 @@ type lockFact struct {
 	ops         []string
 	fields      []string
 	calls       []string
+	self        []string // methods called on the method's own receiver
 	goStmts     int
 }
 
@@ -427,6 +428,9 @@ func lockFacts(f *ast.File) []lockFact {
 					}
 					if !strings.HasSuffix(name, "Lock") && !strings.HasSuffix(name, "Unlock") {
 						lf.calls = append(lf.calls, name)
+						if recvName != "" && strings.HasPrefix(name, recvName+".") && !strings.Contains(name[len(recvName)+1:], ".") {
+							lf.self = append(lf.self, name[len(recvName)+1:])
+						}
 					}
 				case *ast.SelectorExpr:
 					if id, ok := v.X.(*ast.Ident); ok && id.Name == recvName && recvName != "" {
@@ -701,6 +705,17 @@ func main() {
 			sep = ""
 		}
 		w("  (%s, %s, [%s], %v)%s", lstr(l.typ), lstr(l.method), strings.Join(toks, ", "), grid, sep)
+	}
+	w("]")
+	w("")
+	w("/-- (type, method, methods it calls on its own receiver) -/")
+	w("def selfCalls : List (String × String × List String) := [")
+	for i, l := range lfs {
+		sep := ","
+		if i == len(lfs)-1 {
+			sep = ""
+		}
+		w("  (%s, %s, %s)%s", lstr(l.typ), lstr(l.method), llist(l.self), sep)
 	}
 	w("]")
 	w("")
